@@ -11,7 +11,7 @@ LEVEL = 'exploration'
 RULE = (
     'random programs of 1-8 concurrent activities built from timed waits (delay, ==, >=, <, '
     'instant, eternity), nested Scope/until blocks with time notifications and children started '
-    'now/after d/at t; dates from a colliding dyadic grid incl. zero, past, equal and infinite '
+    'now/after d/at t; dates from a colliding dyadic grid (a quarter of the programs: inexact decimal fractions instead) incl. zero, past, equal and infinite '
     'dates; start times {-5,0,0.5,7,1e6,2**53,1e17} (the last two make small delays vanish in float rounding); every logged resume time is compared with the '
     'arithmetic clock model and kernel clock/due-time monitors run on every activation; '
     'non-trivial = >= 2 activities and >= 3 distinct virtual times; distinct = activation trace'
@@ -24,7 +24,8 @@ LEVEL_TEXT = (
     'are evaluated on every activation. Held = no divergence observed.')
 TECHNIQUE = 'runtime monitoring: logged resume times vs arithmetic clock model + kernel due-time/monotonicity monitors'
 ASSUMPTIONS = [
-    'dyadic dates and delays (exact in binary floating point)',
+    'three quarters of the programs use dyadic dates and delays (exact in binary floating '
+    'point, many ties), one quarter decimal fractions (inexact, few ties)',
     'ties between a wait and the trigger of an enclosing block at the same virtual time are '
     'accepted either way (order inside a time step is C02)',
 ]
@@ -33,6 +34,11 @@ REQUIRED_STATS = ['waits_checked', 'due_checked', 'activations']
 GRID = [0, 0, 0.125, 0.25, 0.5, 0.5, 1, 1, 1.5, 2, 2, 3, 5]
 DATES = [-1, 0, 0, 0.5, 1, 1, 1.5, 2, 2, 2.5, 3, 4, 5, 8]
 STARTS = [0, 0, 0, -5, 0.5, 7, 1e6, 2.0 ** 53, 1e17]
+# decimal fractions are inexact in binary floating point: now + (t - now) is not always t, and
+# a + b + c depends on the order - a date must still be met exactly and a delay is one addition
+DEC_GRID = [0, 0.1, 0.2, 0.3, 0.3, 0.7, 0.9, 1.1, 2.3, 1e16 + 2]
+DEC_DATES = [-0.1, 0, 0.1, 0.3, 0.7, 0.9, 1.1, 1.7, 2.3, 2.9, 3.3, 1e16 + 2]
+DEC_STARTS = [0, 0, 0.2, 3, 0.1, -0.3]
 
 
 def n_cases(tier):
@@ -47,20 +53,23 @@ class TimingGen:
     def __init__(self, rng):
         self.rng = rng
         self.count = 0
-        self.start = rng.choice(STARTS)
+        self.decimal = rng.random() < 0.25
+        self.grid = DEC_GRID if self.decimal else GRID
+        self.dates = DEC_DATES if self.decimal else DATES
+        self.start = rng.choice(DEC_STARTS if self.decimal else STARTS)
 
     def ident(self, prefix):
         self.count += 1
         return '%s%d' % (prefix, self.count)
 
     def date(self):
-        return self.start + self.rng.choice(DATES)
+        return self.start + self.rng.choice(self.dates)
 
     def notif(self, for_block=False):
         rng = self.rng
         roll = rng.random()
         if roll < 0.45:
-            delay = rng.choice(GRID)
+            delay = rng.choice(self.grid)
             return {'k': 'delay', 'd': delay} if delay > 0 else {'k': 'instant'}
         if roll < 0.6:
             return {'k': 'ge', 't': self.date()}
@@ -95,7 +104,7 @@ class TimingGen:
                      'steps': self.steps(depth + 1, rng.randint(0, 3))}
             roll = rng.random()
             if roll < 0.3:
-                child['after'] = rng.choice(GRID)
+                child['after'] = rng.choice(self.grid)
             elif roll < 0.55:
                 child['at'] = self.date()
             step['children'].append(child)
